@@ -271,3 +271,102 @@ CONTRACTS.append(
              requires=[R + "req_renew"], ensures=[("joined_or_unassigned", R + "ens_renew")], raises=(), policy=POL_RENEW,
              loops={(NM + ".renew_address", 0): LoopSpec(R + "inv_renew", havoc=[R + "havoc_renew"], frame=R + "renew_fixed")},
              props=["C17", "C07", "C15"], replayable=False))
+
+
+# ---- send(): resolve the node ID through the master, then write() to that ADDRESS
+
+W = {"w_calls": Const(0), "w_to": Const(0), "w_type": Const(0), "w_msg": Const(b"")}
+
+
+def with_w(sch):
+    sch.fields.update(W)
+    return sch
+
+
+def abs_lookup_address(self, node_id):
+    """contract of lookup_address() as proved by C17.lookup_address (codes)"""
+    require(req_lookup_id_arg(self, node_id), "lookup_address: node listening, ID None or 0..255")
+    if node_id is None:
+        return 0
+    if node_id == 0:
+        return 0
+    if self._addr == DEFAULT:
+        return -2
+    self.l_calls = self.l_calls + 1
+    self.l_num = node_id
+    self.l_type = 196
+    havoc_update(self)
+    assume(node_ok(self))
+    r = oracle_int(-32768, 32767)
+    self.l_ret = r
+    return r
+
+
+def abs_mesh_write(self, to_node, message_type, message):
+    """contract of the mesh write() as proved by C17.write (handed_over) + a ghost record"""
+    require(req_mesh_write(self, to_node, message_type, message) and len(message) <= self.max_message_length,
+            "write: node listening, address 0..0xFFFF, type 0..255, message fits")
+    self.w_calls = self.w_calls + 1
+    self.w_to = to_node
+    self.w_type = message_type
+    self.w_msg = bytes(message)
+    havoc_update(self)
+    assume(node_ok(self))
+    return oracle_int(0, 1) == 1
+
+
+def req_mesh_send(self, to_node, message_type, message):
+    return (req_update(self) and self.max_message_length >= 24 and 0 <= message_type and message_type <= 255
+            and 0 <= to_node and to_node <= 255 and len(message) <= self.max_message_length)
+
+
+def inv_send_lookup(self, to_node, to_node_addr, retry_delay):
+    return (node_ok(self) and self._addr != DEFAULT and self.w_calls == 0 and retry_delay >= 5
+            and -32768 <= to_node_addr and to_node_addr <= 32767
+            and implies(to_node_addr >= 0, self.l_calls >= 1 and self.l_ret == to_node_addr)
+            and implies(self.l_calls >= 1, self.l_num == to_node and self.l_type == 196))
+
+
+def havoc_send_lookup(self):
+    havoc_update(self)
+    self.l_calls = oracle_int(0, 1 << 40)
+    self.l_num = oracle_int(0, 65535)
+    self.l_type = oracle_int(0, 255)
+    self.l_ret = oracle_int(-32768, 32767)
+
+
+def send_fixed(self):
+    return fixed_cfg(self) + (self._addr, self._id, self.w_calls, self.w_to, self.w_type, self.w_msg)
+
+
+def ens_mesh_send(self, old_self, to_node, message_type, old_message, result, exc):
+    """C17: "a message sent to its node ID arrives at that node".  Unconnected -> False, nothing
+    sent.  ID 0 -> written to the master (address 0); own ID -> own address; any other ID -> the
+    address the master answered for exactly that ID (lookup type 196), or False with nothing
+    written when no non-negative answer came before the timeout.  Type and message are passed on
+    unchanged, exactly one write()."""
+    if exc is not None:
+        return False
+    if old_self._addr == DEFAULT:
+        return result == False and self.w_calls == 0 and self.l_calls == 0
+    handed = self.w_calls == 1 and self.w_type == message_type and self.w_msg == bytes(old_message) and node_ok(self)
+    if to_node == old_self._id:
+        return handed and self.w_to == old_self._addr and self.l_calls == 0
+    if to_node == 0:
+        return handed and self.w_to == 0 and self.l_calls == 0
+    gave_up = self.w_calls == 0 and result == False and node_ok(self)
+    resolved = (handed and self.l_calls >= 1 and self.l_num == to_node and self.l_type == 196
+                and self.l_ret >= 0 and self.w_to == self.l_ret)
+    return gave_up or resolved
+
+
+POL_SEND = dict(MPOL)
+POL_SEND[NM + ".lookup_address"] = "ref:" + R + "abs_lookup_address"
+POL_SEND[NM + ".write"] = "ref:" + R + "abs_mesh_write"
+CONTRACTS.append(
+    Contract("C17.send", NM + ".send",
+             {"self": with_w(with_l2m(nm_schema())), "to_node": Int(0, 255), "message_type": Int(0, 255),
+              "message": OneOf(Bytes(0, 6000), ByteArray(0, 6000))},
+             requires=[R + "req_mesh_send"], ensures=[("to_the_looked_up_address", R + "ens_mesh_send")], raises=(), policy=POL_SEND,
+             loops={(NM + ".send", 0): LoopSpec(R + "inv_send_lookup", havoc=[R + "havoc_send_lookup"], frame=R + "send_fixed")},
+             props=["C17", "C07"], replayable=False))
